@@ -46,11 +46,15 @@ DecBad ==
          ELSE If(~NulString(e), "well-formed input within the limits was refused")
       ELSE If(Cur.out = "ok", IF e.out = "reject_limit" THEN "length beyond the documented limit was accepted"
                               ELSE "a value was decoded from an input the layout does not accept (truncated or malformed)"))
+  \* a well-formed handle (<= 64 bytes, all of it present) that is refused for its size: the decoder may stop after the
+  \* length word or skip the whole padded handle, it must not stop inside the padded value (off the XDR unit boundary)
+  \cup If(e.out = "reject_len" /\ Cur.out # "ok" /\ Cur.usedk /\ Cur.used \notin {4, e.used},
+          "refused handle was not skipped by exactly its padded length (stream left inside the padded value)")
   \cup If(Cur.alloc > AllocBound(e.out, Len(Cur.in), 4), "decode allocated more than the documented bound allows")
 DecDrift ==
   LET e == DecExp IN
   If(e.out # "ok" /\ Cur.out # "ok" /\ Cur.out # "reject" /\ Cur.out # e.out, "error class differs from the transcription")
-  \cup If(e.out = "reject_len" /\ Cur.usedk /\ Cur.used # e.used, "bytes discarded for a wrong-length handle differ")
+  \cup If(e.out = "reject_len" /\ Cur.usedk /\ Cur.used = 4, "a wrong-length handle is refused without being skipped")
 
 (* cls: declared length classes; only the length word is literal *)
 ClsExp ==
@@ -73,6 +77,9 @@ ClsBad ==
          ELSE {"well-formed input within the limits was refused"}
       ELSE If(Cur.out = "ok", IF e = "reject_limit" THEN "length beyond the documented limit was accepted"
                               ELSE "a value was decoded from an input the layout does not accept (truncated or malformed)"))
+  \cup If(Cur.k = "fh" /\ e = "reject_len" /\ Cur.out # "ok" /\ Cur.avail >= WVal(Cur.w) + Pad(WVal(Cur.w))
+            /\ Cur.used \notin {4, 4 + WVal(Cur.w) + Pad(WVal(Cur.w))},
+          "refused handle was not skipped by exactly its padded length (stream left inside the padded value)")
   \cup If(Cur.alloc > AllocBound(e, IF e = "reject_limit" THEN 0 ELSE ClsUnit * WVal(Cur.w), 4),
           IF e = "reject_limit" THEN "length beyond the documented limit caused an allocation before it was rejected"
           ELSE "decode allocated more than the documented bound allows")
